@@ -420,6 +420,7 @@ def _run_check(ctx, fam, prop, tier, t0):
     # 5. verdict
     violations = 0
     exit_code = 0
+    unreproduced = []
     for tname, vs in mine.items():
         if violations >= 3:
             log("further violating traces not re-run: %d" % (len(mine) - 3))
@@ -427,15 +428,26 @@ def _run_check(ctx, fam, prop, tier, t0):
         (a, b, f, name) = byname[tname]
         t = byfile[f]
         # reproduce: re-run the same inputs, validate alone
-        reproduced = True
+        reproduced = False
         grp = fam.group(traces, t, prop)
-        try:
-            f2 = [fam.rerun(ctx, x["plan"]) for x in grp]
-            _, r2 = validate_files(ctx, fam, f2)
-            reproduced = any(fam.viol_belongs(v[2], prop) and match_known(known, prop, v) is None for v in r2["viol"])
-        except Infra as e:
-            log("re-run failed: %s" % e)
-            reproduced = False
+        # a liveness observation (C08_Alive: a block not executed within the time limit, a node that did not come back) can be
+        # an artefact of a loaded machine: it gets three re-runs; everything else one
+        timing_only = all(v[2] == "C08_Alive" for v in vs)
+        for attempt in range(3 if timing_only else 1):
+            try:
+                f2 = [fam.rerun(ctx, x["plan"]) for x in grp]
+                _, r2 = validate_files(ctx, fam, f2)
+                reproduced = any(fam.viol_belongs(v[2], prop) and match_known(known, prop, v) is None for v in r2["viol"])
+            except Infra as e:
+                log("re-run failed: %s" % e)
+                reproduced = False
+            if reproduced:
+                break
+        if not reproduced and timing_only:
+            # never again in three re-runs of the very same inputs: reported, recorded in the evidence, not a verdict
+            print("UNREPRODUCED: property=%s trace=%s %s %s (3 re-runs of the same inputs passed)" % (prop, tname, vs[0][2], json.dumps(vs[0][3] if len(vs[0]) > 3 else "")), flush=True)
+            unreproduced.append({"trace": tname, "formula": vs[0][2], "detail": vs[0][3] if len(vs[0]) > 3 else None})
+            continue
         if not reproduced:
             log("violation %s in %s did not reproduce on re-run; treated as infrastructure problem" % (vs[0][2], tname))
             exit_code = max(exit_code, 2)
@@ -454,6 +466,7 @@ def _run_check(ctx, fam, prop, tier, t0):
            "drift": len(drift), "known_findings_hit": sorted(kf_hit.keys()),
            "other_property_violations_seen": others,
            "trace_sources": {s: sum(1 for t in traces if t.get("src") == s) for s in set(t.get("src") for t in traces)},
+           "unreproduced_liveness_observations": unreproduced,
            "repo": repo_state()}
     write_evidence(prop, tier, fam.level, cov, fam.assumptions, time.time() - t0, violations)
     log("%s %s: %d traces / %d events validated, %d violations, %d drift, %.1fs" %
